@@ -86,15 +86,19 @@ class Actor:
         self.proc = None
         self.nops = 0
         self.in_body = None
+        self.killer_waits = False
+        self.finished = _rt.Semaphore(0)
         self.owner_pid = 0
         self.tasks_done = []
+
+        box = [target]
 
         def main():
             self.baton.acquire()
             eng._tls.actor = self
             try:
                 if not self.killed:
-                    target()
+                    box[0]()
             except ActorKilled:
                 pass
             except SystemExit:
@@ -103,10 +107,14 @@ class Actor:
                 self.exc = e
                 eng.events.append((self.name, "EXC", f"{type(e).__name__}: {e}"[:300]))
             finally:
+                box[0] = None           # a finished thread no longer keeps its Thread object alive
                 self.done = True
                 self.pending = None
                 eng._tls.actor = None
-                eng.sched_sem.release()
+                if self.killer_waits:
+                    self.finished.release()     # killed while parked: whoever killed it waits for the unwinding
+                else:
+                    eng.sched_sem.release()
 
         self.th = _rt.Thread(target=main, daemon=True, name="sim-" + name)
 
@@ -200,15 +208,16 @@ class Engine:
     def kill_actor(self, a, code):
         """mark a worker dead where it stands; every simulated lock it holds stays held"""
         a.killed = True
+        a.killer_waits = True
         a.proc._die(code)
         a.baton.release()
-        self.sched_sem.acquire()        # wait until its thread has unwound
+        a.finished.acquire()            # wait until its thread has unwound
 
     def run(self, chooser, max_steps=4000):
         while True:
             choices = self.enabled()
-            if not choices:
-                return "quiescent"
+            if not any(v != "crash" for _, v in choices):
+                return "quiescent"      # nothing can move unless the adversary crashes something
             pick = chooser(self, choices)
             if pick is None:
                 return "stopped"
@@ -223,7 +232,7 @@ class Engine:
             self.trace.append((name, v, label))
             a.nops += 1
             if v == "crash":
-                self.events.append((name, "CRASH", label))
+                self.events.append((name, "CRASH", label, self.steps))
                 self.kill_actor(a, -9)
             else:
                 a.variant = v
@@ -373,7 +382,21 @@ class SimConn:
     def send_bytes(self, b, *a):
         ENG.op("send", self)
         self._check()
-        self.pipe.msgs.append(bytes(b))
+        b = bytes(b)
+        if b"TooLarge" in b:
+            import struct
+            raise struct.error("simulated: message too large for send_bytes")
+        if self.label.endswith("rq.pipe"):
+            # semantic event for the monitors: what kind of message a worker sent back
+            try:
+                o = pickle.loads(b)
+                kind = ("ANNOUNCE", o) if isinstance(o, int) else \
+                    ("RESULT", o.work_id) if hasattr(o, "work_id") else ("REMOTE_TB", None)
+            except BaseException:
+                kind = ("RESULT", "unloadable")
+            a = ENG.me()
+            ENG.events.append((a.name if a else "?", kind[0], kind[1], ENG.steps))
+        self.pipe.msgs.append(b)
 
     def send(self, obj):
         self.send_bytes(pickle.dumps(obj))
